@@ -193,11 +193,34 @@ def _random_cases(tier, seed):
   return out
 
 
+def _siblings(tier):
+  g = gen.grid_cfg
+  t8 = g(8, 9, 25, 13)
+  t8p = g(8, 9, 25, 13, impl='fast', bsm=8)
+  out = []
+  for grid, K, levels, trefs in ((t8, 4, 'uneven', ('constant', 'linear', 'tropopause')),
+                                 (t8p, 3, 'equi', ('linear', 'constant'))):
+    for order, tr in (('fwd', trefs), ('rev', trefs[::-1])):
+      c = _pe(grid, K, levels, tr[0], etas=(0.05, -0.4))
+      c['kind'] = 'pe_siblings'
+      c['trefs'] = list(tr)
+      c['order'] = order
+      out.append(c)
+  return out
+
+
 def cases(tier, seed):
   out = []
-  for i, c in enumerate(_structured(tier) + _random_cases(tier, seed)):
+  for i, c in enumerate(_structured(tier) + _random_cases(tier, seed) + _siblings(tier)):
     gc = c['grid']
     tag = gen.grid_tag(gc)
+    if c['kind'] == 'pe_siblings':
+      c['id'] = f"{i}-pe-siblings-{c['order']}-K{c['K']}-{c['levels']}-{tag}"
+      B = 2 * c['K'] + 1
+      size = gc['M'] * gc['L'] * 2
+      c['cost'] = len(c['trefs']) * (1.0 + len(c['etas']) * (0.25 + B * B * size / 2.0e5))
+      out.append(c)
+      continue
     if c['kind'] == 'pe':
       c['id'] = f"{i}-pe-{c['cls']}-K{c['K']}-{c['levels'].replace(':', '')}-{c['tref']}-{tag}-{c['env']}"
       B = 2 * c['K'] + 1
@@ -726,6 +749,16 @@ def _run_sw(case, M):
 
 def run(case, M):
   M = _Tagged(M, '' if M.env.startswith('f64') else '@f32')
+  if case['kind'] == 'pe_siblings':
+    # history monitor: equation objects that share grid, level set (same rng stream => same
+    # boundaries), constants and step sizes but differ in the reference-temperature profile are
+    # solved one after the other in the same process; each is judged by the ordinary oracles, so
+    # a solve matrix memoised on too small a key (without T_ref) poisons the second one.
+    for j, tref in enumerate(case['trefs']):
+      sub = dict(case, kind='pe', tref=tref)
+      _run_pe(sub, M)
+      M.cover('sibling_sequences', f"{case['id']}:{j}:{tref}")
+    return
   if case['kind'] == 'pe':
     _run_pe(case, M)
   else:
